@@ -7,6 +7,7 @@ mod doscdrive;
 mod drive;
 mod envdrive;
 mod feedrive;
+mod gallery;
 mod js;
 mod keys;
 mod lj;
@@ -142,6 +143,15 @@ fn cmd_ledger(a: &Args) {
     println!("{}", json!({"records": n}));
 }
 
+fn cmd_gallery(a: &Args) {
+    let mut out = Out::new(&a.s("out", "gallery.ndjson"));
+    let net = drive::net_of(&a.s("net", "custom02"));
+    let fm: u128 = a.s("feemult", "1000").parse().unwrap();
+    gallery::gallery(&mut out, &a.s("tag", "gallery"), a.u64("seed", 1), net, fm);
+    let n = out.finish();
+    println!("{}", json!({"records": n}));
+}
+
 fn cmd_chain(a: &Args) {
     let mut out = Out::new(&a.s("out", "chain.ndjson"));
     let net = drive::net_of(&a.s("net", "custom02"));
@@ -257,6 +267,7 @@ fn main() {
         Some("codec") => cmd_codec(&a),
         Some("ledger") => cmd_ledger(&a),
         Some("swap") => cmd_swap(&a),
+        Some("gallery") => cmd_gallery(&a),
         Some("reward") => cmd_reward(&a),
         Some("tips") => cmd_tips(&a),
         Some("env") => cmd_env(&a),
